@@ -3,6 +3,7 @@ determine_branch_identity against the Topology model (exact geometry) in the dri
 from __future__ import annotations
 
 import itertools
+import multiprocessing as mp
 from collections import Counter
 from fractions import Fraction
 
@@ -177,6 +178,81 @@ def s05_tables(ctx):
     return res
 
 
+def _extract_handshake(arg):
+    traces, area_wkt, t = arg
+    import_fractopo()
+    from collections import Counter
+
+    import geopandas as gpd
+    from shapely import wkt
+    from shapely.geometry import LineString
+
+    from fractopo.branches_and_nodes import branches_and_nodes
+
+    try:
+        b, n = branches_and_nodes(gpd.GeoDataFrame(geometry=[LineString(l) for l in traces]), gpd.GeoDataFrame(geometry=[wkt.loads(area_wkt)]), t, already_clipped=False)
+    except Exception as e:  # noqa: BLE001
+        return f"{type(e).__name__}: {str(e)[:120]}"
+    ends = Counter()
+    for g in b.geometry.values:
+        ends[g.coords[0][:2]] += 1
+        ends[g.coords[-1][:2]] += 1
+    nodes = [(p.x, p.y, c) for p, c in zip(n.geometry.values, n["Class"].values)]
+    problems = []
+    tol = 1e-9
+    used = 0
+    for x, y, c in nodes:
+        k = sum(v for q, v in ends.items() if abs(q[0] - x) < tol and abs(q[1] - y) < tol)
+        used += k
+        if k == 0:
+            problems.append(f"{c}-node at ({x!r}, {y!r}) has no branch end")
+        if c in ("I", "Y", "X") and k != {"I": 1, "Y": 3, "X": 4}[c] and not (c == "I" and k == 2) and not (c == "X" and k > 4):
+            problems.append(f"{c}-node at ({x!r}, {y!r}) terminates {k} branch ends")
+    if used != 2 * len(b):
+        problems.append(f"branch ends at nodes: {used}, twice the number of branches: {2 * len(b)}")
+    return problems
+
+
+def s05_extraction(ctx):
+    """C05's own words on whole extractions where a piece of the noded linework is shorter than the branch minimum"""
+    import_fractopo()
+    from shapely.geometry import box
+
+    res = StreamResult("S05-extraction", rule="branches_and_nodes on a host trace crossed near-perpendicularly by a trace that overshoots it by 0.5 / 0.9 / 1.005 / 1.2 / 2.5 / 5 x snap "
+                       "(the tip is a piece around the 1.01 x snap branch minimum), optionally a zig-zag crossing the host twice 0.6 / 1.5 x snap apart; thresholds 0.01 / 0.1: every "
+                       "branch end coincides with exactly one node, every node with a branch end, ends summed over nodes = twice the branches, I / Y / X nodes terminate 1 / 3 / 4 ends "
+                       "(logged exceptions of invalid input: degree 2 as I, more than 4 as X); non-trivial = tip or gap within 1.3 x snap")
+    rng = rng_for(ctx.seed, "S05x")
+    args, meta = [], []
+    for _ in range(budget(ctx.tier, 60, 1200)):
+        t = rng.choice([0.01, 0.1])
+        sc = t / 0.01
+        tip = rng.choice([0.5, 0.9, 1.005, 1.2, 2.5, 5.0]) * t
+        slant = rng.choice([0.0, 0.02, -0.02]) * sc
+        traces = [[(0.0, 0.0), (10.0 * sc, 0.0)], [(5.0 * sc, 3.0 * sc), (5.0 * sc + slant, -tip)]]
+        gap = None
+        if rng.random() < 0.4:
+            gap = rng.choice([0.6, 1.5]) * t
+            x0 = 2.0 * sc
+            # a zig-zag dipping below the host between two crossings `gap` apart
+            traces.append([(x0 - 1.0 * sc, 2.0 * sc), (x0 - gap / 2, -3.0 * t), (x0 + gap / 2, -3.0 * t), (x0 + 1.0 * sc, 2.0 * sc)])
+        args.append((traces, box(-20 * sc, -20 * sc, 30 * sc, 20 * sc).wkt, t))
+        meta.append((t, tip, gap))
+    with mp.get_context("fork").Pool(16, maxtasksperchild=16) as pool:
+        outs = pool.map(_extract_handshake, args, chunksize=2)
+    for (traces, aw, t), (t_, tip, gap), o in zip(args, meta, outs):
+        res.evaluations += 1
+        res.nontrivial += int(tip <= 1.3 * t or (gap is not None and gap <= 1.3 * t))
+        case = {"stream": "S05-extraction", "traces": traces, "area_wkt": aw, "t": t}
+        if isinstance(o, str):
+            res.skipped["extraction_raised_on_invalid_input"] = res.skipped.get("extraction_raised_on_invalid_input", 0) + 1
+            continue
+        if o:
+            res.disagreements.append(Disagreement("S05-extraction", case, "handshake", o[:4], True, "; ".join(o)[:300]))
+    res.samples = [{"traces": args[0][0], "t": args[0][2]}]
+    return res
+
+
 def s05_generated(ctx):
     """translator validation: the REGENERATED node-table and branch-label loops (compiled into gen_c05, exact geometry) vs the real
     functions on the same adversarial branch lists"""
@@ -246,10 +322,13 @@ def s05_branch_identity(ctx):
     return res
 
 
-STREAMS = [s05_branch_identity, s05_tables, s05_generated]
+STREAMS = [s05_branch_identity, s05_tables, s05_generated, s05_extraction]
 
 
 def replay(ctx, stream, case):
+    if stream == "S05-extraction":
+        o = _extract_handshake((case["traces"], case["area_wkt"], case["t"]))
+        return Disagreement(stream, case, "handshake", o, True, "; ".join(o)[:300]) if (not isinstance(o, str) and o) else None
     import_fractopo()
     if stream == "S05-generated":
         r = s05_generated(ctx)
